@@ -12,6 +12,7 @@ RULE = (
     "bit-serial LFSR (reflected poly 0x8408, no final XOR); every (s,b) pair is a distinct non-trivial case (counted "
     "by the enumerator; shards are disjoint ranges of s). short: all strings of length 0..2 with default start. "
     "long: Hypothesis byte strings (0..4096 / 65536 bytes) with random start, passed as bytes/bytearray/memoryview/list/tuple and as memoryview WINDOWS (a slice of a larger buffer, a strided view) and bytearray slices; "
+    "history: a caller-held mutable buffer (bytearray, memoryview of one, a window of one, list) is checksummed, CHANGED IN PLACE, and checksummed again (same object, calls with other arguments in between): every call must equal the reference on the content at that moment (non-trivial = >= 2 calls with an in-place change between them). "
     "non-trivial = length >= 3 (beyond what step+short enumerate), distinct by content hash. Every result must be in 0..0xFFFF."
 )
 ASSUMPTIONS = [
@@ -19,7 +20,7 @@ ASSUMPTIONS = [
     "(crc8404B folds the step left to right and the step's result was checked to stay within 16 bits); the induction is a paper argument",
     "reference: bit-at-a-time LFSR pinned by the CRC-16/MCRF4XX check value 0x6F91 for '123456789'",
 ]
-REQUIRED_CLASSES = ["step.result==0", "long.container=memoryview", "long.container=memoryview-window", "long.container=memoryview-strided", "long.len>=256"]
+REQUIRED_CLASSES = ["step.result==0", "long.container=memoryview", "long.container=memoryview-window", "long.container=memoryview-strided", "long.len>=256", "history.changed-in-place-between-calls"]
 
 env.load_repo()
 from bec2format.bec2file import crc8404B  # noqa: E402
@@ -140,10 +141,67 @@ def check_vector(case, rec):
         raise Violation("check value for '123456789' is %#06x, CRC-16/MCRF4XX says 0x6F91" % crc8404B(case["data"]))
 
 
+def check_history(case, rec):
+    """the checksum is a function of (bytes now, start): a buffer the caller keeps and changes in place between two calls, the same object
+    passed twice, equal content in different objects, calls with other arguments in between - each call is compared with the reference on
+    the buffer's content at the moment of the call"""
+    kind = case["container"]
+    store = bytearray(case["data"])
+    if kind == "bytearray":
+        arg = store
+    elif kind == "memoryview":
+        arg = memoryview(store)
+    elif kind == "memoryview-window":
+        store = bytearray(b"\x11" + case["data"] + b"\x22")
+        arg = memoryview(store)[1: 1 + len(case["data"])]
+    else:
+        arg = list(case["data"])
+    rec.cls("history.container=" + kind)
+    mutated_between_calls, calls = False, 0
+    for op in case["ops"]:
+        n = len(arg)
+        if op[0] == "set" and n:
+            i = op[1] % n
+            arg[i] = op[2]
+            if calls:
+                mutated_between_calls = True
+        elif op[0] == "other":
+            crc8404B(op[1], op[2])
+        elif op[0] == "call":
+            start = op[1]
+            now = bytes(arg)
+            got = crc8404B(arg) if start is None else crc8404B(arg, start)
+            want = refcrc.crc_bit(now, 0xFFFF if start is None else start)
+            calls += 1
+            if got != want:
+                raise Violation("call %d on the caller's %s (content now %s, start=%r) returns %r, bit-serial reference %#06x; history %r" % (
+                    calls, kind, now[:24].hex(), start, got, want, case["ops"]))
+            if mutated_between_calls:
+                rec.cls("history.changed-in-place-between-calls")
+    if mutated_between_calls and calls >= 2:
+        rec.nt((case["data"], tuple(map(tuple, case["ops"])), kind))
+
+
+def strat_history(tier):
+    start = st.one_of(st.none(), st.none(), st.just(0xFFFF), st.integers(0, 0xFFFF))
+    op = st.one_of(
+        st.tuples(st.just("call"), start),
+        st.tuples(st.just("call"), start),
+        st.tuples(st.just("set"), st.integers(0, 1 << 16), st.integers(0, 255)),
+        st.tuples(st.just("other"), st.binary(max_size=8), st.integers(0, 0xFFFF)),
+    )
+    return st.fixed_dictionaries(dict(
+        data=st.binary(min_size=1, max_size=64),
+        container=st.sampled_from(["bytearray", "memoryview", "memoryview-window", "list"]),
+        ops=st.lists(op, min_size=2, max_size=8),
+    ))
+
+
 def parts(tier):
     return [
         Part("step", bulk=bulk_step, check=check_replay_step, quick=(16, 0), thorough=(16, 0), exhaustive=True),
         Part("short", bulk=bulk_short, check=check_replay_step, quick=(4, 0), thorough=(4, 0), exhaustive=True),
         Part("vectors", check=check_vector, enum=enum_vectors, quick=(1, 0), thorough=(1, 0), exhaustive=True),
+        Part("history", check=check_history, strategy=strat_history, quick=(4, 300), thorough=(16, 3000)),
         Part("long", check=check_long, strategy=strat_long, quick=(4, 400), thorough=(16, 6000)),
     ]
